@@ -638,7 +638,7 @@ func GenWide(i int, name string, o GenOpts) *Program {
 	p := g.p
 	p.Types = []TKind{KNamedInt}
 	n := 6 + (i*7)%20
-	if i%2 == 0 {
+	if i%2 == 0 && !o.NoInvoke {
 		pr := &Par{}
 		p.Par = pr
 		for k := 0; k < n; {
@@ -667,10 +667,20 @@ func GenWide(i int, name string, o GenOpts) *Program {
 		for k := 0; k < n; k++ {
 			fn := g.newFn("task")
 			fn.Ctx, fn.Err = r.Chance(1, 2), r.Chance(1, 2)
-			f.Tasks = append(f.Tasks, Task{Fn: fn, Invoke: true, OptOrder: r.Perm(4)})
+			t := Task{Fn: fn, Invoke: true, OptOrder: r.Perm(4)}
+			if o.NoInvoke {
+				// (modifier mode has no Invoke: every function has a result of a
+				// type of its own, and the flow asks for all of them)
+				p.Types = append(p.Types, KNamedInt)
+				ty := len(p.Types) - 1
+				t.Invoke = false
+				t.Fn.Outs = []int{ty}
+				f.Results = append(f.Results, ty)
+			}
+			f.Tasks = append(f.Tasks, t)
 		}
 		f.Listing = r.Perm(n)
-		f.Concurrency = i%3 == 0
+		f.Concurrency = i%3 == 0 || o.NoInvoke
 		f.OptOrder = r.Perm(4 + n)
 	}
 	g.finish()
